@@ -36,25 +36,23 @@ theorem pyFloatOfInt_some (neg : Bool) (n : Nat) (hn : n < 2 ^ 1023) :
     pyFloatOfInt neg n = some (roundRat D .RNE neg n 1) := by
   unfold pyFloatOfInt; dsimp only; rw [roundRat_int_finite .RNE neg n hn]; rfl
 
-set_option maxRecDepth 8000 in
-/-- unsigned / signed integer of at most 1023 bits → DOUBLE under RNE: fold = specification -/
+/-- `float(n)` of an unsigned / signed integer of at most 1023 bits is the specification's `to_fp_unsigned` / `to_fp` under
+RNE and never raises OverflowError (`fpToFPUnsigned` / `fpToFP` of a DOUBLE wrap exactly this value in an FPV) -/
 theorem int_to_double_rne (w v : Nat) (hw : w ≤ 1023) :
-    fpToFPUnsigned D .RNE w v = .fp D (ofUBV D .RNE w v) ∧ fpToFP_sbv D .RNE w v = .fp D (ofSBV D .RNE w v) := by
+    pyFloatOfInt false (v % 2 ^ w) = some (ofUBV D .RNE w v) ∧
+    (if v % 2 ^ w ≥ 2 ^ (w - 1) then pyFloatOfInt true (2 ^ w - v % 2 ^ w) else pyFloatOfInt false (v % 2 ^ w))
+      = some (ofSBV D .RNE w v) := by
   have hp : 2 ^ w ≤ 2 ^ 1023 := Nat.pow_le_pow_right (by decide) hw
   have hv : v % 2 ^ w < 2 ^ w := Nat.mod_lt _ (Nat.two_pow_pos _)
   constructor
-  · unfold fpToFPUnsigned ofUBV
-    rw [pyFloatOfInt_some false _ (Nat.lt_of_lt_of_le hv hp)]
-    simp only [lower_D]
-  · unfold fpToFP_sbv ofSBV; dsimp only
+  · unfold ofUBV
+    exact pyFloatOfInt_some false _ (Nat.lt_of_lt_of_le hv hp)
+  · unfold ofSBV; dsimp only
     by_cases h : v % 2 ^ w ≥ 2 ^ (w - 1)
     · have hpos : 0 < v % 2 ^ w := Nat.lt_of_lt_of_le (Nat.two_pow_pos _) h
-      have hlt : 2 ^ w - v % 2 ^ w < 2 ^ 1023 := by
-        have h1 : 2 ^ w - v % 2 ^ w < 2 ^ w := Nat.sub_lt (Nat.two_pow_pos w) hpos
-        exact Nat.lt_of_lt_of_le h1 hp
-      rw [if_pos h, if_pos h, pyFloatOfInt_some true _ hlt]
-      simp only [lower_D]
-    · rw [if_neg h, if_neg h, pyFloatOfInt_some false _ (Nat.lt_of_lt_of_le hv hp)]
-      simp only [lower_D]
+      have hlt : 2 ^ w - v % 2 ^ w < 2 ^ 1023 :=
+        Nat.lt_of_lt_of_le (Nat.sub_lt (Nat.two_pow_pos w) hpos) hp
+      rw [if_pos h, if_pos h]; exact pyFloatOfInt_some true _ hlt
+    · rw [if_neg h, if_neg h]; exact pyFloatOfInt_some false _ (Nat.lt_of_lt_of_le hv hp)
 
 end Claripy.FP.Fold
